@@ -307,6 +307,7 @@ def main(h: Harness, prop: str, argv=None):
     ap.add_argument("--max-runs", type=int, default=None)
     ap.add_argument("--workers", type=int, default=int(os.environ.get("VERIF_WORKERS", "0")) or (os.cpu_count() or 4))
     ap.add_argument("--no-shrink", action="store_true")
+    ap.add_argument("--evidence-dir", default=os.environ.get("VERIF_EVIDENCE_DIR"), help="write the evidence file elsewhere (development runs against modified trees)")
     ap.add_argument("--verbose", action="store_true")
     args = ap.parse_args(argv)
     tier = args.tier
@@ -546,8 +547,9 @@ def _batch(h, prop, tier, batch_seed, args, t0):
             "known_findings_open": sorted(open_known),
         },
     }
-    os.makedirs(os.path.join(VERIF, "evidence"), exist_ok=True)
-    ev_path = os.path.join(VERIF, "evidence", f"{prop}.json")
+    ev_dir = args.evidence_dir or os.path.join(VERIF, "evidence")
+    os.makedirs(ev_dir, exist_ok=True)
+    ev_path = os.path.join(ev_dir, f"{prop}.json")
     write_evidence(ev_path, evidence)
     try:
         validate_evidence(ev_path)
